@@ -241,14 +241,36 @@ func runC18Overlap(rc *RC) {
 	rc.S.Run(func() bool { return strings.HasPrefix(serveT.Site, "read:") }, 20000, time.Second)
 	errs := make([]error, n)
 	done := make([]bool, n)
+	// in a third of the runs some callers are impatient: they give up after a fraction of a second - while they wait for
+	// their turn behind another call, or for the room, which takes its time then. Giving up is their right (they get their
+	// context's error); the patient ones still get the room's answer.
+	impatient := make([]bool, n)
+	if ch.Chance("workload", 1, 3) {
+		for i := 1; i < n; i++ {
+			impatient[i] = ch.Chance("workload", 2, 3)
+		}
+		if ch.Chance("workload", 1, 2) {
+			impatient[0], impatient[1] = impatient[1], impatient[0]
+		}
+		answerDelay = []time.Duration{400 * time.Millisecond, time.Second, 2 * time.Second}[ch.Int("workload", 3)]
+		rc.Fire("impatient-callers")
+		rc.Describe("impatient=%v answer-delay=%v", impatient, answerDelay)
+	}
 	var tasks []*simrt.Task
 	for i := 0; i < n; i++ {
 		i := i
 		off := time.Duration(ch.Range("workload", 0, 12)) * 5 * time.Millisecond
+		patience := 30 * time.Second
+		if impatient[i] {
+			patience = time.Duration(ch.Range("workload", 1, 60)) * 10 * time.Millisecond
+		}
 		tasks = append(tasks, rc.Spawn(fmt.Sprintf("caller%d", i), func() {
 			simrt.Sleep(off)
-			ctx, cancel := context.WithTimeout(e.Ctx, 30*time.Second)
+			ctx, cancel := context.WithTimeout(e.Ctx, patience)
 			errs[i] = chn.Join(ctx)
+			if impatient[i] && errs[i] != nil && errors.Is(errs[i], ctx.Err()) {
+				errs[i] = nil // gave up, as announced
+			}
 			simrt.Settle(cancel, "h:cancel")
 			done[i] = true
 		}))
